@@ -403,44 +403,47 @@ fn str_prefix6(ost: Option<String>) -> Result<Option<Prefix6>, Error> {
 
 fn str_duration(ost: Option<String>) -> Result<Option<std::time::Duration>, Error> {
     ost.map(|st| {
-        let mut num = None;
-        let mut ret = Default::default();
+        let overflow = || Error::InvalidConfig(format!("Duration {} is too large", st));
+        let mut num: Option<u64> = None;
+        let mut ret: std::time::Duration = Default::default();
         for c in st.chars() {
-            match c {
+            let multiplier = match c {
                 '0'..='9' => {
-                    if let Some(n) = num {
-                        num = Some(n * 10 + c as u64 - '0' as u64);
-                    } else {
-                        num = Some(c as u64 - '0' as u64);
-                    }
+                    let digit = c as u64 - '0' as u64;
+                    num = Some(
+                        num.unwrap_or(0)
+                            .checked_mul(10)
+                            .and_then(|n| n.checked_add(digit))
+                            .ok_or_else(overflow)?,
+                    );
+                    continue;
                 }
-                's' => {
-                    ret += std::time::Duration::from_secs(num.take().unwrap());
-                }
-                'm' => {
-                    ret += std::time::Duration::from_secs(num.take().unwrap() * 60);
-                }
-                'h' => {
-                    ret += std::time::Duration::from_secs(num.take().unwrap() * 3600);
-                }
-                'd' => {
-                    ret += std::time::Duration::from_secs(num.take().unwrap() * 86400);
-                }
-                'w' => {
-                    ret += std::time::Duration::from_secs(num.take().unwrap() * 7 * 86400);
-                }
-                x if x.is_whitespace() => (),
-                '_' => (),
+                's' => 1,
+                'm' => 60,
+                'h' => 3600,
+                'd' => 86400,
+                'w' => 7 * 86400,
+                x if x.is_whitespace() => continue,
+                '_' => continue,
                 _ => {
                     return Err(Error::InvalidConfig(format!(
                         "Unexpected {} in duration",
                         c
                     )));
                 }
-            }
+            };
+            let n = num.take().ok_or_else(|| {
+                Error::InvalidConfig(format!("Unit {} without a number in duration", c))
+            })?;
+            ret = n
+                .checked_mul(multiplier)
+                .and_then(|secs| ret.checked_add(std::time::Duration::from_secs(secs)))
+                .ok_or_else(overflow)?;
         }
         if let Some(n) = num {
-            ret += std::time::Duration::from_secs(n);
+            ret = ret
+                .checked_add(std::time::Duration::from_secs(n))
+                .ok_or_else(overflow)?;
         }
         Ok(ret)
     })
